@@ -194,6 +194,15 @@ OnlyNegoOnRaw == offered # 0 => \A k \in 1..Len(wire) : wire[k].chan = "raw" => 
 \* C02: after a refusal nothing more is written
 \* (a step to phase "start" is the beginning of another connection in a multi-run trace)
 SilentAfterRefusal == [][(phase \in {"refuse", "failed"} /\ phase' # "start") => (wire' = wire)]_allvars
+\* C17: the mode table - restricted admin is announced in the request and empties the Client Info
+\* credentials, the auto-logon flag is set exactly when requested (the CredSSP half is CredSSP!ModeTable
+\* and Trace_Rdp!TCDer3)
+ModeTable == \A k \in 1..Len(wire) :
+   /\ wire[k].m.kind = "ConnReq" => wire[k].m.flags = (IF cfg.admin THEN 1 ELSE 0)
+   /\ wire[k].m.kind = "ClientInfo" =>
+        /\ wire[k].m.autologon = cfg.auto
+        /\ cfg.admin => (wire[k].m.domain = <<>> /\ wire[k].m.user = <<>> /\ wire[k].m.password = <<>>)
+        /\ ~cfg.admin => (wire[k].m.domain = cfg.domain /\ wire[k].m.user = cfg.user /\ wire[k].m.password = cfg.password)
 \* C03: connecting succeeds against a conforming server of the supported feature set
 MustSucceed == result = "err" => ~srvOk
 \* C03: the mandated order (each kind's position; joins in either order)
